@@ -215,6 +215,9 @@ def run(ctx):
         if rng.random() < 0.3:
             chain.insert(rng.randrange(len(chain) + 1), "probe")
         scripts.append(build_script(rng, chain, random_prog(rng, rng.randrange(6, 16))))
+    # the wire carries SSRCs that differ only in their low or only in their high half
+    tbl = [None] + [{1: t[1], 2: t[2], 3: t[3], 4: t[9]} for t in vlib.SSRC_TABLES if t]
+    scripts = [vlib.remap_ids(sc, rng.choice(tbl), keys=("s",)) for sc in scripts]
     run_batch(ctx, scripts, "T-random")
     ctx.assumptions += [
         "application packets are recognised at the transport by header identity (all non-buffering members forward the caller's header object)",
